@@ -44,7 +44,7 @@ theorem symQuant_bound (c d : Int) (hd : 0 < d) :
 theorem seq12_is_symQuant (c d : Int) : sequential12Quantize c d = symQuant c d := by
   simp [sequential12Quantize, symQuant]
 
-theorem quant8_is_symQuant (bx bY s t i q c : Int) : quantizeBlock.entry bx bY s t i q c = symQuant c (q * 8) := by
+theorem quant8_is_symQuant (enc : Encoder) (bx bY s t i q c : Int) : quantizeBlock.entry enc bx bY s t i q c = symQuant c (q * 8) := by
   simp [quantizeBlock.entry, symQuant]
 
 theorem quant12_entry (bx bY i c q r : Int) : quantizeBlock12.entry bx bY i c q r = symQuant c (q * 8) := by
